@@ -29,6 +29,10 @@ def configs(ctx):
                     two.append((mode, 'name', L, L, H, W, 2, 1, 2, mask))
         one.append((mode, 4, 11, 2, 2, 3, 0))
         two.append((mode, 'name', 4, 4, 7, 10, 2, 2, 3, 0))
+    for L in (2, 4, 8):            # sizes outside the short-signal region (known finding F8)
+        for N in ((5, 8, 12, 17) if L < 8 else (17, 24, 33)):
+            one.append(('per', L, N, 2 if L < 8 else 1, 1, 2, 0))
+        two.append(('per', 'name', L, L, 9, 12, 2 if L < 8 else 1, 1, 2, 0))
     return one, two
 
 
